@@ -22,7 +22,7 @@ from ..costlib import cost_specs, layer_map
 from ..model import AnalysisError, ClassInfo
 from ..pitlib import pit_layer_classes
 from ..sym import NONE, Term, mentions, show, subterms
-from ..util import (SELF, Inliner, arg, callee, guards_of, is_call, method_call, paths, returning, short,
+from ..util import (SELF, Inliner, arg, callee, guards_of, inline_globals, prior_assumes, is_call, method_call, paths, returning, short,
                     where)
 from .c01 import _binarizer, layer_kind
 from .c05 import is_vars_copy, written_by
@@ -188,7 +188,7 @@ def r04b(ctx):
             want_atom = ('isnone', ('sub', ('sub', sp, ('const', '_parameters')),
                                     ('const', 'bias')))
             for p in returning(paths(repo, reg.fn)):
-                t = p.retval
+                t = inline_globals(repo, p.retval)      # small helpers (a shared bias term)
                 ifs = [x for x in subterms(t) if x[0] == 'ifexp']
                 ind = [x for x in subterms(t)
                        if is_call(x, 'builtins.int', 'builtins.float') and len(x[2]) == 1 and
@@ -290,7 +290,7 @@ def r04d(ctx):
             # cost_fn_map[lname](v)
             if t[1][0] == 'sub' and t[1][1] == ('param', 'cost_fn_map') and len(t[2]) == 1:
                 v = t[2][0]
-                g = guards_of(p, e)
+                g = prior_assumes(p, e)      # also if/elif/else-continue before the call
                 is_pit = any(is_call(a, 'builtins.isinstance') and pol for a, pol in g)
                 if is_pit:
                     searchable += 1
